@@ -1,5 +1,9 @@
 import MorfuseModel.Emit.Model
 namespace Morfuse.Emit
-/-- placeholder (replaced by the read-back certificate) -/
-def certify (_ : Node) : Bool := true
+/-- the lemma that `C01_code_fits` still lacks, evaluated on one tree: the program pass writes or skips exactly as
+many bytes (ignoring moves back) as the counting pass counted.  The check demands `true` on every generated tree. -/
+def certify (dev : Bool) (root : Node) : Bool :=
+  match compile dev root with
+  | .ok r => r.final.gross == r.info.progLength && decide (r.final.pos ≤ r.final.gross)
+  | .error _ => true
 end Morfuse.Emit
